@@ -96,7 +96,7 @@ func (n *Number) FillBig() {
 		n.BigBuf = append(n.BigBuf, '-')
 	}
 	n.BigBuf = append(n.BigBuf, strconv.FormatUint(n.I, 10)...)
-	if 0 < n.Frac {
+	if 0 < n.Frac || 1 < n.Div {
 		n.BigBuf = append(n.BigBuf, '.')
 		if 1000000000000000000 <= n.Frac { // nearest multiple of 10 below max int64
 			n.BigBuf = append(n.BigBuf, strconv.FormatUint(n.Frac, 10)...)
